@@ -114,11 +114,22 @@ def showRes (r : Res Json) : String :=
   | .unsup => "unsup"
   | .oof => "oof"
 
+/-- `parse`, but an accepted document with numbers of unknown value is shown
+    with `#?` in their place (`unsup <dump>`): the grammar decision and every
+    other value can still be compared. -/
+def parseShow (b : List Nat) : String :=
+  match parse b with
+  | .unsup =>
+    match parseValue (2 * (prepare b).length + 1) 0 (prepare b) with
+    | .ok (v, _) => "unsup " ++ dump v
+    | _ => "unsup"
+  | r => showRes r
+
 def step (ws : List String) : String :=
   match ws with
   | ["parse", h] | ["parsef", h] =>
     match Drivers.hexBytes h with
-    | some b => "parse " ++ showRes (parse b)
+    | some b => "parse " ++ parseShow b
     | none => "bad-op"
   | "get" :: h :: qs =>
     match Drivers.hexBytes h with
